@@ -412,3 +412,76 @@ func VerifC13_cellcopies() {
 		}
 	}
 }
+
+// VerifC13_columns: column-level cell callbacks follow the column a cell sits in - also for a cell
+// that was copied by value out of another column, and also after the table grew past its initial
+// column capacity in one step.
+func VerifC13_columns() {
+	var log []vfEv
+	t := New()
+	t.AddHeaders("h1", "h2", "h3")
+	t.AddRowItems("a", "b", "c")
+	k := 1 + vfChoice("col", 3) // the column carrying the callback
+	other := 1 + (k % 3)
+	when := callbackTime(vfChoice("when", 4))
+	cbK := &vfRecCB{id: 1, log: &log, key: &vfKeyT13{31}}
+	cbO := &vfRecCB{id: 2, log: &log, key: &vfKeyT13{32}}
+	vfAssert(t.RegisterPropertyCallback(t.Column(k), when, CB_ON_CELL, cbK) == nil, "register-ok")
+	vfAssert(t.RegisterPropertyCallback(t.Column(other), when, CB_ON_CELL, cbO) == nil, "register-ok")
+	var want []vfEv
+	scenario := vfChoice("scenario", 2)
+	var r2 *Row
+	switch scenario {
+	case 0:
+		// a live cell of column k copied into a new row at another column index
+		src, _ := t.CellAt(CellLocation{Row: 1, Column: k})
+		r2 = NewRow()
+		for i := 1; i < other; i++ {
+			r2.Add(NewCell("pad"))
+		}
+		r2.Add(*src)
+		t.AddRow(r2)
+	case 1:
+		// growth past the initial capacity in one step
+		n := 10 + vfChoice("grow", 3)
+		items := make([]interface{}, n)
+		for i := range items {
+			items[i] = "g"
+		}
+		t.AddRowItems(items...)
+		r2 = t.AllRows()[1]
+	}
+	if when == CB_AT_ADD {
+		// adding the row fires, cell by cell, the callbacks of the column each cell sits in
+		for j := range r2.cells {
+			if j+1 == k {
+				want = append(want, vfEv{1, &r2.cells[j]})
+			}
+			if j+1 == other {
+				want = append(want, vfEv{2, &r2.cells[j]})
+			}
+		}
+	}
+	if when != CB_AT_ADD {
+		t.InvokeRenderCallbacks()
+		if when != CB_AT_RENDER { // column-level cell callbacks exist for the pre- and post-cell times
+			for _, row := range t.AllRows() {
+				for j := range row.cells {
+					if j+1 == k {
+						want = append(want, vfEv{1, &row.cells[j]})
+					}
+					if j+1 == other {
+						want = append(want, vfEv{2, &row.cells[j]})
+					}
+				}
+			}
+		}
+	}
+	vfAssert(len(log) == len(want), "column-callbacks-once-per-cell-of-that-column")
+	if len(log) == len(want) {
+		for i := range log {
+			vfAssert(log[i].id == want[i].id, "column-callbacks-follow-the-column")
+			vfAssert(log[i].po == want[i].po, "column-callbacks-live-object")
+		}
+	}
+}
